@@ -212,6 +212,8 @@ type state struct {
 	built    bool
 	vh       vhState
 	mesh     meshState
+	gw       gwState
+	isTLS    bool // opts.IsTLS of the route translation (gateway server with a TLS block)
 	// oracle-only switch: evaluate the spec with the deviation of finding F-C12-1 (classification)
 	f1Variant bool
 }
@@ -235,6 +237,9 @@ func (s *state) reset() {
 	s.vh = vhState{}
 	s.mesh.drop()
 	s.mesh = meshState{}
+	s.gw.drop()
+	s.gw = gwState{}
+	s.isTLS = false
 }
 
 func atoi(t string) int {
@@ -257,6 +262,9 @@ func (s *state) apply(f []string) bool {
 		if !(len(names) == 1 && names[0] == constants.IstioMeshGateway) {
 			s.node.Type = model.Router
 		}
+		s.built = false
+	case "tls": // tls <0/1>: the listener terminates TLS (RouteOptions.IsTLS)
+		s.isTLS = f[1] == "1"
 		s.built = false
 	case "svc": // svc <host> <ports> <externalName>
 		svc := &model.Service{Hostname: host.Name(wire.Dec(f[1]))}
@@ -339,7 +347,7 @@ func (s *state) apply(f []string) bool {
 
 func (s *state) opts() istioroute.RouteOptions {
 	return istioroute.RouteOptions{
-		IsTLS:                     false,
+		IsTLS:                     s.isTLS,
 		IsHTTP3AltSvcHeaderNeeded: false,
 		Mesh:                      mesh.DefaultMeshConfig(),
 		LookupService:             func(name host.Name) *model.Service { return s.services[name] },
@@ -419,6 +427,9 @@ func step(s *state, stream string, f []string) string {
 		return r
 	}
 	if r, ok := s.rdsStep(f); ok {
+		return r
+	}
+	if r, ok := s.gwStep(f); ok {
 		return r
 	}
 	return "bad-op"
